@@ -72,7 +72,7 @@ def rule_threshold(ctx):
     txs = [i for i in sh if i[1] == 'read_txs'][0]
     ctx.check('threshold', 'tx-count-binds-tx-list', txs[4][0] == 'read_from#2(self)?.value', rb, 'read_txs(%s)' % txs[4][0])
     # the block is built from those reads
-    ret = canon(rb.ret_expr(), labels=labels)
+    ret = wire.ret_canon(rb, labels)
     okr = 'new(a2, read_block_header#0(self)?, phi(Option::None{} | Option::Some{0: read_aux_pow_extension#1(self, a3.version_id)?}), read_from#2(self)?, read_txs#3(self, read_from#2(self)?.value, a3.version_id)?)' in ret
     ctx.check('threshold', 'block-built-from-reads', okr, rb, 'Block::new(size, header, aux, tx_count, txs)')
 
@@ -94,7 +94,7 @@ def rule_grammar(ctx):
     items, labels = wire.grammar(mb)
     seq = sorted((i[1], i[2], tuple(i[4]), tuple(i[5])) for i in wire.shape(items))
     ctx.check('grammar', 'branch={count,mask-u32le}', seq == sorted([('read_from', None, (), ()), ('read_u32', 'LittleEndian', (), ())]), mb, 'merkle branch outer reads %s' % seq)
-    ret = canon(mb.ret_expr(), labels=labels)
+    ret = wire.ret_canon(mb, labels)
     cnt = [i[0] for i in items if i[1] == 'read_from']
     okb = bool(cnt) and 'collect(map(Range::Range{start: 0, end: read_from#%s(self)?.value}, closure:{closure#0}))?' % cnt[0] in ret
     ctx.check('grammar', 'branch-hashes-bound-by-count', okb, mb, 'hashes = (0..count).map(read_256hash)')
@@ -132,7 +132,7 @@ def rule_isolation(ctx):
     order = [i[1] for i in items]
     ctx.check('isolation', 'header-read-before-section', order.index('read_block_header') < order.index('read_aux_pow_extension'), rb, 'header is complete before the section is read')
     # the header passed to Block::new is the first read, not the parent header inside the section
-    ret = canon(rb.ret_expr(), labels=labels)
+    ret = wire.ret_canon(rb, labels)
     ctx.check('isolation', 'header-is-first-read', 'new(a2, read_block_header#0(self)?' in ret, rb, 'Block::new receives header #0')
 
 
